@@ -14,7 +14,7 @@ RULE = ("by-construction triples: a base of 2-10 pairwise dissimilar cells (mino
         "bump execution count, delete, leave); insertions only in gaps whose two neighbours the other side left untouched and never "
         "two sides in one gap. Windows of 4 consecutive cells are enumerated exhaustively over (owner, action) patterns "
         "(quick: 1:6 sample), random beyond. The expected merge is assembled by the generator while it applies the two scripts, "
-        "never by nbdime. Generic JSON: dicts with disjoint (nested) key sets, lists of distinct scalars with changes separated by "
+        "never by nbdime. Long documents: generic lists of 130-520 items and a 270-300 cell notebook with clusters of owned neighbouring positions up to the far end. Generic JSON: dicts with disjoint (nested) key sets, lists of distinct scalars with changes separated by "
         ">= 1 untouched item. Oracle: no decision has conflict=True and canon(merged) == canon(expected), under the default strategy "
         "and mergetool (notebooks) / decide_merge+apply_decisions (generic). Non-trivial: each side owns >= 1 changed cell; distinct by hash.")
 FLOOR = {"quick": 2000, "thorough": 30000}
@@ -170,7 +170,7 @@ def judge(col, gen, base, pattern, inserts, tag):
             col.violation("merged-differs-from-both-change-sets", "%s: %s (pattern %s inserts %s)" % (
                 cfg["merge"], first_difference(merged, exp), adjacency_signature(pattern), inserts), dict(case, config=cfg), "result")
     if lchanged and rchanged:
-        col.nt(chash(base, loc, rem))
+        col.nt(chash(base["cells"][:3], pattern, loc["cells"][-2:], rem["cells"][-2:]) if len(base["cells"]) > 50 else chash(base, loc, rem))
         col.count("adjacency:" + adjacency_signature(pattern)[:12])
         if inserts:
             col.count("with_inserts")
@@ -315,4 +315,86 @@ def run_shard(spec):
         judge(col, gen, base, pattern, inserts, "random")
     for _ in range(spec["generic"]):
         generic_case(col, r)
+    # long documents: hundreds of items, owned changes in adjacency patterns far beyond small indices
+    for _ in range(max(4, spec["generic"] // 60)):
+        long_generic_case(col, r)
+    gen = NBGen(r, exotic=False, hostile=False)
+    long_notebook_case(col, gen)
     return col.result()
+
+
+def _long_pattern(r, n):
+    """owner per index: clusters of neighbouring owned positions (LL, L then R, delete then edit) placed anywhere,
+    including the far end of the list"""
+    owners = ["-"] * n
+    for _ in range(r.randrange(3, 9)):
+        k = r.choice([r.randrange(n - 4), n - r.randrange(3, 40), r.randrange(max(1, n - 60), n - 4)])
+        shape = r.choice(["LL", "RR", "LR", "RL", "L-R", "LLR", "R"])
+        for off, o in enumerate(shape):
+            if o != "-" and 0 <= k + off < n:
+                owners[k + off] = o
+    return owners
+
+
+def long_generic_case(col, r):
+    from .. import nbd
+    n = r.choice([130, 270, 300, 520])
+    base = ["item %d" % i for i in range(n)]
+    owners = _long_pattern(r, n)
+    loc, rem, exp = [], [], []
+    for i, v in enumerate(base):
+        o = owners[i]
+        act = r.choice(["replace", "replace", "delete"]) if o != "-" else None
+        newv = "changed %d by %s" % (i, o)
+        for side, lst in (("L", loc), ("R", rem)):
+            if o == side:
+                if act == "replace":
+                    lst.append(newv)
+            else:
+                lst.append(v)
+        if o == "-":
+            exp.append(v)
+        elif act == "replace":
+            exp.append(newv)
+    if r.random() < 0.5:        # one side appends at the very end
+        o = r.choice("LR")
+        (loc if o == "L" else rem).append("appended by " + o)
+        exp.append("appended by " + o)
+    col.eval()
+    case = {"base": base, "local": loc, "remote": rem, "expected": exp, "generic": True}
+    # neighbouring positions owned by DIFFERENT sides are adjacent changes: outside the property's precondition
+    adjacent_foreign = any(owners[i] != "-" and owners[i + 1] != "-" and owners[i] != owners[i + 1] for i in range(n - 1))
+    try:
+        dec = nbd.decide_merge(base, loc, rem)
+        merged = nbd.apply_decisions(base, dec)
+    except Exception as e:
+        key, tmpl = nbd.exc_key(e)
+        col.violation("merge-raised:" + key, str(e)[:200], case, "no-exception")
+        return
+    if adjacent_foreign:
+        col.count("long_generic_adjacent_foreign_changes_not_judged")
+        return
+    col.mon("expected_vs_merged_generic")
+    if any(d.get("conflict") for d in dec):
+        col.violation("conflict-on-disjoint-generic-changes", "long list n=%d" % n, case, "no-conflict")
+    elif not seq(merged, exp):
+        col.violation("generic-merged-differs-from-both-change-sets", "long list n=%d: %s" % (n, first_difference(merged, exp)), case, "result")
+    col.nt(chash(base[:3], loc, rem))
+    col.count("generic:long-list")
+
+
+def long_notebook_case(col, gen):
+    """a 4.5 notebook with ~300 small cells; owned edits / deletions / an appended cell beyond index 256"""
+    r = gen.rng
+    n = r.choice([270, 300])
+    cells = []
+    for i in range(n):
+        c = {"cell_type": "code", "metadata": {}, "source": "cell_%d = %d" % (i, i * 7), "execution_count": None, "outputs": [], "id": "c%05d" % i}
+        cells.append(c)
+    base = {"nbformat": 4, "nbformat_minor": 5, "metadata": {}, "cells": cells}
+    owners = _long_pattern(r, n)
+    for i in range(n - 1):      # keep the property's precondition: no neighbouring cells owned by different sides
+        if owners[i] != "-" and owners[i + 1] != "-" and owners[i] != owners[i + 1]:
+            owners[i + 1] = owners[i]
+    pattern = [(o, (r.choice(["edit_source", "edit_metadata", "delete"]) if o != "-" else "leave")) for o in owners]
+    judge(col, gen, base, pattern, {}, "long-notebook")
